@@ -32,6 +32,18 @@ CHECKS = {
     "C09": dict(engine="E3+E1", level="model_checking", technique="explicit-state BFS over the reachable states of the real RateLimit under a virtual clock + admission-before-request invariant on explored request logs",
                 text="For every set of 1..2 (quick) / 1..3 (thorough) limits over n in {1,2,3,5,20} x period in {1,2,3,5,10 s}: BFS over arrival-gap histories to depth 6 / 10 or fixpoint, states deduplicated by the ages in the limiter's own query log; window oracle (never n+1 admissions within a period) and progress oracle on every admission sequence. Every request of a bound-1 fault exploration and of account-update / key-change / binding flows must be preceded by an admission, and admission instants of 1..3 certificates contending for one endpoint satisfy the windows.",
                 note="Instants are read at the limiter on the virtual clock, not on the wire.", ref="4/C09"),
+    "C13": dict(engine="E4", level="exploration", technique="exhaustive enumeration of all 4096 mode values x 3 umasks on the real storage functions + mode/owner grid through generated configurations and full issuances",
+                text="All 4096 values of cert_file_mode (with a derived distinct pk_file_mode) x umask {000,022,077} x {certificate, key, account} through the real write path, stat() after creation; through TOML: option unset / each of 12 bits / 6 common values for both options, owner and group unset / by name / by number for certificate and key files, creation and rewrite under a changed configuration.",
+                note="Only the nine permission bits are judged (the kernel drops set-id/sticky on open/write). Ownership needs root (true in this sandbox; reported as unchecked otherwise).", ref="4/C13"),
+    "C14": dict(engine="E4", level="exploration", technique="exhaustive enumeration of presence patterns, of all 512 include graphs on three files and of global-option splits, against an independent resolver over the generating dictionaries",
+                text="2^3 presence patterns per setting with distinct values; every directed include graph on 3 files with relative/absolute/glob/./ paths and duplicates; each of the 15 global options in 6 file-split patterns; 12 reference cases (dangling endpoint/account/hook/group member/rate limit, duplicate ids) with controls. Effective values are read back from the loaded MainEventLoop.",
+                note="The resolver works on the Python dictionaries the TOML was generated from; merge order assumed depth-first, later overrides.", ref="4/C14"),
+    "C15": dict(engine="E4", level="exploration", technique="deterministic enumeration of key shapes (EC scalars 1..N, OKP seed counter, RSA exponents) through the real loaders/encoders, compared with an independent encoding; signature shape cells enforced by looping",
+                text="EC scalars 1..20000/5000/1000 (quick) or 70000/20000/5000 (thorough) per curve, 5000/2000 OKP seeds, RSA-2048 e in {3, 65537, 2^32+1} and RSA-4096, generated keys of all 7 types; JWK members and values, RFC 7638 thumbprint input, PEM/DER round trips, signatures verified by an independent fixed-width verifier; required shape cells (leading zero bytes, base64 - and _) must be non-empty.",
+                note="Trusted: OpenSSL's raw component accessors and probe/cryptoutil.rs.", ref="4/C15"),
+    "C19": dict(engine="E4", level="exploration", technique="bounded-exhaustive field-by-field mutation of a full configuration + hazard catalogue, each case in a crash-isolated worker; exhaustive period-string sweep against a reference parser",
+                text="~1000 field mutants (delete, duplicate, unknown key, 13 replacement values incl. wrong types and boundary numbers, section drops) and ~120 hazards (group cycles, include cycles, zero/huge rate limits, overflowing periods at every level, identifier/template hazards) loaded and run until the first attempt ends; a crash, panic, or hang of the worker is the verdict. All 111 111 strings of length <= 5 over 10 symbols + 40 long numerals compared with a reference period parser. Thorough repeats the hazards on the release binary (panic=abort).",
+                note="A limit of n requests per practically endless period is honoured by waiting and is not counted as a hang.", ref="4/C19"),
     "C07": dict(engine="E1", level="model_checking", technique="stateless exhaustive exploration of CA faults and hook exit codes over consecutive attempts; real run() loop with several certificates under tokio's paused clock",
                 text="Every single fault (CA alphabet + hook exits 1/2/126/SIGKILL) at every choice point of three consecutive attempts; thorough: every pair over the reduced alphabet. Oracles: no panic, no hang, post-operation hooks exactly once with a truthful verdict, >= 1 s (virtual) between a failed attempt and the next. Non-interference: 1..6 certificates sharing account and endpoint with any number failing permanently.",
                 note="Time is tokio's virtual clock (the guard zeroes two thread::sleep constants, counts untouched). Multi-certificate runs do not control task order.", ref="4/C07"),
